@@ -306,7 +306,7 @@ def py_expr(e, Q):
     raise ValueError(k)
 
 
-def py_select(spec, Q, nested=False, order_seed=None):
+def py_select(spec, Q, nested=False, order_seed=None, parts_out=None):
     """builder source; with order_seed the clause-adding calls are issued in a shuffled (legal) order"""
     if nested and order_seed is None and NESTED_ORDER[0] is not None:
         order_seed = NESTED_ORDER[0].getrandbits(32)
@@ -375,8 +375,12 @@ def py_select(spec, Q, nested=False, order_seed=None):
             if not queues[k]:
                 keys.remove(k)
         body = "".join(out)
+        if parts_out is not None:
+            parts_out.append((head, list(out)))
     else:
         body = "".join(pre + calls)
+        if parts_out is not None:
+            parts_out.append((head, pre + calls))
     return head + body
 
 
